@@ -2,4 +2,36 @@ package c03
 
 import "wzverif/internal/kit"
 
-var findings = []kit.Finding[Case]{}
+// One finding per loss class (ledger D07): the clause id names the element path, the trigger is the
+// call site that can put such an element into the document. Only ids listed `open:` in
+// KNOWN_FINDINGS.txt have masking power.
+var classDesc = map[string]string{
+	"keepNext":        "Open drops w:keepNext of a paragraph (SetKeepWithNext / SetParagraphFormat.KeepWithNext)",
+	"keepLines":       "Open drops w:keepLines of a paragraph (SetKeepLines / SetParagraphFormat.KeepLines)",
+	"pageBreakBefore": "Open drops w:pageBreakBefore of a paragraph (SetPageBreakBefore / SetParagraphFormat.PageBreakBefore)",
+	"widowControl":    "Open drops w:widowControl of a paragraph (SetWidowControl / SetParagraphFormat)",
+	"outlineLvl":      "Open drops w:outlineLvl of a paragraph (SetOutlineLevel / SetParagraphFormat.OutlineLevel)",
+	"snapToGrid":      "Open drops w:snapToGrid of a paragraph (SetSnapToGrid(false) / SetParagraphFormat.SnapToGrid)",
+	"pBdr":            "Open drops w:pBdr of a paragraph (SetBorder / SetHorizontalRule)",
+	"runBreak":        "Open drops w:br of a run: Document.AddPageBreak / Paragraph.AddPageBreak page breaks vanish after a reopen",
+	"bookmark":        "Open drops body-level w:bookmarkStart/w:bookmarkEnd (AddHeadingParagraphWithBookmark)",
+	"nestedTable":     "Open drops tables nested in a table cell (AddNestedTable) with all their content",
+	"sdt":             "Open drops body-level w:sdt (GenerateTOC): the whole table of contents vanishes after a reopen",
+	"math":            "Open drops m:oMath/m:oMathPara of a formula paragraph (AddMathFormula): an empty paragraph remains",
+	"anchor":          "Open drops the positioning/wrap children of wp:anchor (simplePos, positionH, positionV, effectExtent, wrapTight, wrapTopAndBottom, cNvGraphicFramePr) of floating pictures",
+	"picLocks":        "Open drops a:picLocks of pic:cNvPicPr of every picture",
+	"titlePg":         "Open drops w:titlePg of the section (SetDifferentFirstPage / first-page header or footer)",
+	"pgNumType":       "Open drops w:pgNumType of the section (created by the header/footer calls)",
+}
+
+var findings = func() []kit.Finding[Case] {
+	var out []kit.Finding[Case]
+	for _, cl := range classes {
+		id := cl.ID
+		out = append(out, kit.Finding[Case]{
+			ID: "KF-C03-" + id, Clause: "C03.lost:" + id + "/", Desc: classDesc[id],
+			Trigger: func(c Case, f kit.Failure) bool { return opTouches(c, id) },
+		})
+	}
+	return out
+}()
